@@ -180,14 +180,27 @@ def run_shard(ctx, spec):
         for n in marks:
             drive(mon, g, e, n, reps=(tier == 'quick' or n % 7 == 0))
         if (g, e) == ('M', '800'):
+            # the ESAA option must not leak into later plain calls (and vice versa): interleave them
             for n in marks:
                 drive(mon, g, e, n, esaa=True, reps=False)
+                drive(mon, g, e, n, reps=False)
+                drive(mon, g, e, n, age=50, reps=False)
         # ages
         ages = QUICK_AGES if tier == 'quick' else list(range(1, 111))
         per = 120 if tier == 'quick' else 400
         zh = O.zero_mark_hundredths(g, e, mon.live)
+        import math as _m
         for age in ages:
             lo, hi = (max(0, zh // 3), zh + 40) if O.kind_of(e) == 't' else (zh // 2, min(top, zh * 6 + 600))
+            # marks whose product with the age factor is an exact number of hundredths: the float product
+            # may land on either side of that integer, so rounding must act on the product, not on the mark
+            fa = O.age_factor(core.REPO, g, e, age)
+            if fa is not None and fa != 1:
+                k = int(fa * 10000)
+                step = 10000 // _m.gcd(k, 10000)
+                for n in range(step, top + 1, step):
+                    drive(mon, g, e, n, age=age, reps=False)
+                    ctx.count('eval.exact-product-marks')
             for _ in range(per):
                 drive(mon, g, e, rnd.randrange(lo, hi + 1), age=age, reps=False)
             if (g, e) == ('M', '800'):
